@@ -6,9 +6,9 @@ except ImportError:      # replays run under the repository's interpreter, witho
     z3 = None
 
 from pyvc.api import (Module, Interface, Method, Iface, Inst, Int, Nat, Pos, Bool, Str, Opt, OneOf, Const, Union,
-                      ListOf, IterOf, FixedList, Any_, Custom, new_opaque, assume_pred)
+                      ListOf, MListOf, IterOf, FixedList, Any_, Custom, new_opaque, assume_pred)
 from pyvc.values import SStr, SList
-from contracts.common import implies, iff, forall_range, exists_range, prefix_join, join_of, yielded, peek, is_find
+from contracts.common import implies, iff, forall_range, exists_range, prefix_join, join_of, peek, is_find
 from contracts import text_spec
 from contracts.text_spec import NL, is_line, is_split_nl, split_nl
 
@@ -43,28 +43,30 @@ def _setup_subs(interp, args, ghosts):
 
 M.contract(P_REPL + ':_lines_iterator_from_replacements',
            params=dict(replacer=Iface(ReplacerFnI), lines=IterOf(Iface(AnyLineI))),
-           setup=_setup_subs,
+           setup=_setup_subs, yields=ListOf(Str),
            ensures={
                'yields split_nl of the concatenated replacements':
-                   lambda result, subs: is_split_nl(yielded(result), join_of(subs)),
+                   lambda yielded, subs: is_split_nl(yielded, join_of(subs)),
            },
            raises_only=())
 
 
-def _inv_outer(_i, _yielded, segments, subs):
-    return join_of(_yielded) + join_of(segments) == prefix_join(subs, _i) \
+def _inv_outer(_i, yielded, segments, subs):
+    return join_of(yielded) + join_of(segments) == prefix_join(subs, _i) \
         and NL not in join_of(segments) \
-        and forall_range(0, len(_yielded), lambda j: is_line(_yielded[j]) and _yielded[j].endswith(NL))
+        and forall_range(0, len(yielded), lambda j: is_line(yielded[j]) and yielded[j].endswith(NL))
 
 
-def _inv_inner(_i0, _yielded, segments, subs, sub_l, nli):
-    return join_of(_yielded) + join_of(segments) + sub_l == prefix_join(subs, _i0 + 1) \
+def _inv_inner(_i0, yielded, segments, subs, sub_l, nli):
+    # (the quantifier-free conjuncts first: what they establish about the pieces of sub_l is then known
+    # to the path solver when the body slices sub_l)
+    return is_find(nli, sub_l, NL) \
+        and join_of(yielded) + join_of(segments) + sub_l == prefix_join(subs, _i0 + 1) \
         and NL not in join_of(segments) \
-        and forall_range(0, len(_yielded), lambda j: is_line(_yielded[j]) and _yielded[j].endswith(NL)) \
-        and is_find(nli, sub_l, NL)
+        and forall_range(0, len(yielded), lambda j: is_line(yielded[j]) and yielded[j].endswith(NL))
 
 
 M.loop(P_REPL + ':_lines_iterator_from_replacements', 0, invariant=_inv_outer,
-       modifies=dict(_yielded=ListOf(Str), segments=ListOf(Str), sub_l='local', nli='local', line='local'))
+       modifies=dict(yielded='len', segments=MListOf(Str), sub_l='local', nli='local', line='local'))
 M.loop(P_REPL + ':_lines_iterator_from_replacements', 1, invariant=_inv_inner,
-       modifies=dict(_yielded=ListOf(Str), segments=ListOf(Str), sub_l=Str, nli=Int))
+       modifies=dict(yielded='len', segments=MListOf(Str), sub_l=Str, nli=Int))
